@@ -262,10 +262,12 @@ pub fn c07_regions(input: &str, cfg: &Cfg, well_formed: bool) -> Vec<String> {
                                         fails.push("c07: an instruction line of an asm block with conditional directives is not reproduced byte for byte".to_string());
                                     } else {
                                         // inline conditional directives: which shape?
-                                        let closes_line = is_dir(&group[group.len() - 1]);
-                                        let opens_line = is_dir(&group[0]);
+                                        // (comments do not count as tokens of the instruction here)
+                                        let code: Vec<&OTok> = group.iter().filter(|t| !matches!(t.kind, RawTokenType::Comment(_))).collect();
+                                        let closes_line = code.last().map_or(false, |t| is_dir(t));
+                                        let opens_line = code.first().map_or(false, |t| is_dir(t));
                                         let simple = |t: &OTok| {
-                                            is_pass(t)
+                                            matches!(t.kind, RawTokenType::ConditionalDirective(_) | RawTokenType::Comment(_))
                                                 || matches!(t.kind, RawTokenType::Identifier | RawTokenType::IdentifierOrKeyword(_) | RawTokenType::NumberLiteral(_) | RawTokenType::TextLiteral(_) | RawTokenType::Op(OperatorKind::Dot))
                                         };
                                         // tokens between the first and the last directive of the line
@@ -306,7 +308,7 @@ pub fn c07_regions(input: &str, cfg: &Cfg, well_formed: bool) -> Vec<String> {
                                         } else if closes_line || opens_line {
                                             "a directive is the first or last token of the line"
                                         } else if !branches_simple {
-                                            "a branch holds brackets or operators"
+                                            "a branch holds brackets, operators or another directive"
                                         } else {
                                             "branches of identifiers, numbers and strings, inside the line"
                                         };
